@@ -109,8 +109,9 @@ def _resub_job(spec):
             ys.subscribe(on_next=on_next, on_error=lambda e: runs[k].append({"e": "sink", "k": "E", "err": type(e).__name__, "vt": s.clock}),
                          on_completed=lambda: runs[k].append({"e": "sink", "k": "C", "vt": s.clock}), scheduler=s)
         return go
+    second = spec.get("second_at", 1500)
     s.schedule_absolute(200, sub(0))
-    s.schedule_absolute(1500, sub(1))
+    s.schedule_absolute(second, sub(1))
     import signal
     old = signal.signal(signal.SIGALRM, lc._alarm)
     signal.setitimer(signal.ITIMER_REAL, 4.0)
@@ -123,10 +124,12 @@ def _resub_job(spec):
     finally:
         signal.setitimer(signal.ITIMER_REAL, 0)
         signal.signal(signal.SIGALRM, old)
-    subs = [[(x.subscribe - 200, x.unsubscribe - 200 if x.unsubscribe < 10 ** 9 else None, src._role) for x in src.subscriptions if x.subscribe < 1500]
-            for src in ctx.sources]
-    subs2 = [[(x.subscribe - 1500, x.unsubscribe - 1500 if x.unsubscribe < 10 ** 9 else None, src._role) for x in src.subscriptions if x.subscribe >= 1500]
-             for src in ctx.sources]
+    subs = subs2 = None
+    if second >= 1500:   # sequential pattern: the two subscribers' source subscriptions are separable by time
+        subs = [[(x.subscribe - 200, x.unsubscribe - 200 if x.unsubscribe < 10 ** 9 else None, src._role) for x in src.subscriptions if x.subscribe < 1500]
+                for src in ctx.sources]
+        subs2 = [[(x.subscribe - 1500, x.unsubscribe - 1500 if x.unsubscribe < 10 ** 9 else None, src._role) for x in src.subscriptions if x.subscribe >= 1500]
+                 for src in ctx.sources]
     return spec, (runs, subs, subs2), None
 
 
@@ -134,7 +137,10 @@ def resub_pass(ck, seed: int, per_op: int) -> Dict[str, Any]:
     """C04, differential: each non-multicasting catalogue operator with deterministic callbacks on a cold source."""
     rnd = random.Random(seed)
     names = sorted(n for n in cat.CATALOGUE if n not in MULTICAST and n not in NONDET)
-    specs = [dict(seed=rnd.randrange(10 ** 9), names=[n]) for n in names for _ in range(per_op)]
+    # sequential (second subscription after the first run is over) and overlapping (a few ticks later, while the first
+    # subscriber's timers and inner subscriptions are pending)
+    specs = [dict(seed=rnd.randrange(10 ** 9), names=[n], second_at=sa) for n in names for _ in range(per_op)
+             for sa in (1500, rnd.choice([203, 207, 212, 218, 226]))]
     res = core.parallel_map(_resub_job, specs, procs=10, chunk=40)
     compared = skipped = 0
     for spec, out, skip in res:
@@ -142,14 +148,16 @@ def resub_pass(ck, seed: int, per_op: int) -> Dict[str, Any]:
             skipped += 1
             continue
         runs, subs, subs2 = out
-        if any(e["vt"] >= 1500 for e in runs[0]):
+        second = spec["second_at"]
+        if second >= 1500 and any(e["vt"] >= 1500 for e in runs[0]):
             skipped += 1          # the first run was not over when the second began: not the sequential pattern
             continue
         compared += 1
-        a = [dict(e, vt=e["vt"] - 200) for e in runs[0]]
-        b = [dict(e, vt=e["vt"] - 1500) for e in runs[1]]
+        # both runs are cut at the same horizon of absolute time: compare what both had the time to do
+        a = [dict(e, vt=e["vt"] - 200) for e in runs[0] if e["vt"] - 200 <= 1200]
+        b = [dict(e, vt=e["vt"] - second) for e in runs[1] if e["vt"] - second <= 1200]
         d = _first_diff(a, b)
-        if d is None and sorted(map(str, subs)) != sorted(map(str, subs2)):
+        if d is None and subs is not None and sorted(map(str, subs)) != sorted(map(str, subs2)):
             d = f"source subscription intervals differ: {subs} vs {subs2}"
         if d:
             ck.fail({"engine": "resub-diff", "op": spec["names"][0], "spec": spec, "failure": "resubscription_differs", "why": d,
